@@ -114,13 +114,13 @@ Definition ar_same_keys (a b : option (list (ar_str * ar_str))) : bool :=
   | _, _ => false
   end.
 
-Definition ar_api_oracle (genv : ar_env) (inv : list ar_host) (to_svc : bool) (fvars : list (ar_str * ar_value))
+Definition ar_api_oracle (genv : ar_env) (navv : ar_target -> ar_str -> ar_value) (inv : list ar_host) (to_svc : bool) (fvars : list (ar_str * ar_value))
            (f : ar_expr) (plain wrapped : option (list (ar_str * ar_str))) : Z :=
   if ar_api_premises inv then
     if negb (ar_same_keys plain wrapped) then 1
-    else if negb (ar_same_keys plain (ar_api_plain genv inv to_svc fvars f)) then 2
+    else if negb (ar_same_keys plain (ar_api_plain genv navv inv to_svc fvars f)) then 2
     else 0
   else
-    if negb (ar_same_keys plain (ar_api_fast genv inv to_svc fvars f)) then 3
-    else if negb (ar_same_keys wrapped (ar_api_plain genv inv to_svc fvars (ar_wrap f))) then 4
+    if negb (ar_same_keys plain (ar_api_fast genv navv inv to_svc fvars f)) then 3
+    else if negb (ar_same_keys wrapped (ar_api_plain genv navv inv to_svc fvars (ar_wrap f))) then 4
     else if ar_same_keys plain wrapped then 0 else 5.
